@@ -485,6 +485,70 @@ class ConcShared(Conc):
         self.sched = SqlSched()
 
 
+class ConcMemFresh(Conc):
+    """a broker object NOBODY has used yet: its first operations come from several threads at once (a runner's loop and its workers right
+    after start-up).  Every Python line executed below the broker's methods is a yield point - also inside whatever builds its containers
+    lazily (a cached property, a default dict)"""
+
+    def __init__(self, ctx_tmp: str, app_id: str, nthreads: int):
+        from pynenc.broker.mem_broker import MemBroker
+        from harness.sched_line import LineSched
+
+        self.app = make_app("mem", ctx_tmp, app_id=app_id)
+        self.nthreads = nthreads
+        methods = [v for k, v in vars(MemBroker).items() if callable(v) and not k.startswith("__")]
+        self.sched = LineSched(line_targets=[MemBroker], deep_targets=methods)
+
+    def run(self, init: list[str], programs: list[list[Op]], chooser: Callable):
+        self.main = type(self.app.broker)(self.app)          # fresh, untouched
+        self.brokers = [self.main] * self.nthreads
+        hist: list[tuple[int, Op, str, int, int]] = []
+
+        def body(tid: int):
+            def f():
+                for op in programs[tid]:
+                    t0 = self.sched.now()
+                    res = apply(self.brokers[tid], op)
+                    hist.append((tid, op, res, t0, self.sched.now()))
+            return f
+
+        run = self.sched.run([body(t) for t in range(len(programs))], chooser)
+        remaining = []
+        while True:
+            r = self.main.retrieve_invocation()
+            if r is None or len(remaining) > 10_000:
+                break
+            remaining.append(r)
+        return run, hist, remaining
+
+
+def concurrent_first_touch(ctx: Ctx) -> None:
+    """exactly-once for the FIRST operations of an in-memory broker object made by two threads at once"""
+    scen = [
+        ("two-routers", [], [[("route", "n1")], [("route", "n2")]]),
+        ("router-and-retriever", [], [[("route", "n1"), ("route", "n2")], [("retrieve",), ("count",)]]),
+        ("batch-and-router", [], [[("many", ["n1", "n2"])], [("route", "n3")]]),
+    ]
+    c = ConcMemFresh(ctx.tmp, "c08fresh", 2)
+    c.sched.install()
+    n = 0
+    try:
+        for name, init, programs in scen:
+            for run in explore(lambda ch: _run_keep(c, init, programs, ch), 2, 120 if ctx.quick else 1200):
+                hist, remaining = run._c08  # type: ignore[attr-defined]
+                n += 1
+                ctx.count()
+                ctx.distinct(("conc-mem-fresh", name, tuple(run.choices)))
+                replay = {"kind": "concurrent-mem-first-touch", "scenario": name, "init": init, "programs": [[list(o) for o in p] for p in programs], "schedule": run.choices,
+                          "history": [[t, list(o), r, a, b] for t, o, r, a, b in hist], "remaining": remaining}
+                v = judge_history(init, programs, run, hist, remaining)
+                if v:
+                    ctx.report(f"mem-first-touch:{v[0]}", f"[mem, a broker object used for the first time by 2 threads at once, scenario {name}] {v[1]}; schedule {run.choices}", replay)
+    finally:
+        c.sched.uninstall()
+    ctx.notes["concurrent_first_touch_schedules"] = n
+
+
 def concurrent_shared_object(ctx: Ctx) -> None:
     """exactly-once / FIFO for threads that share one SQLite broker OBJECT: every interleaving of their SQL statements up to a
     pre-emption bound; conservation and a sequential FIFO witness"""
@@ -810,6 +874,7 @@ def run(ctx: Ctx) -> None:
         interrupted_operations(ctx)
         concurrent_part(ctx, drv)
         concurrent_mem(ctx)
+        concurrent_first_touch(ctx)
         concurrent_shared_object(ctx)
         adversarial_app_ids(ctx)
         ctx.sample({"kind": "concurrent", "scenario": SCENARIOS_2[0][0], "init": SCENARIOS_2[0][1], "programs": SCENARIOS_2[0][2]})
